@@ -16,7 +16,7 @@ import (
 
 func verifC14StoreBounds() (n, steps int) {
 	if verifrt.Tier() == 1 {
-		return 3, 3
+		return 2, 3
 	}
 	return 2, 2
 }
@@ -38,13 +38,17 @@ type vC14Pop struct {
 	linkedX []bool
 }
 
-func verifC14Populate(env *vEnv, n int, symR, symRole2, symLink bool) *vC14Pop {
+func verifC14Populate(env *vEnv, n int, symR, symRole2, symLink, fixedR bool) *vC14Pop {
 	p := &vC14Pop{}
 	p.ids = verifrt.SortedSet("id", n, 1, 2)
 	env.createDepts("x")
 	for i, id := range p.ids {
 		// only the dimensions the cursor kind under test depends on are symbolic
-		p.hasR = append(p.hasR, symR && verifrt.Bool("role.r"))
+		if fixedR {
+			p.hasR = append(p.hasR, i == 0) // exactly the first emp holds "r"
+		} else {
+			p.hasR = append(p.hasR, symR && verifrt.Bool("role.r"))
+		}
 		var r2 []byte
 		if symRole2 && verifrt.Bool("role2.set") {
 			r2 = verifrt.Bytes("role2", 1)
@@ -88,13 +92,15 @@ func verifC14Store(kind int) {
 	n, steps := verifC14StoreBounds()
 	env := verifNewEnv(vStoreCfg{nickNullable: true, links: true})
 	defer env.close()
-	symR := kind == 0 || kind == 1 || kind == 4 || kind == 5 || kind == 7 || kind == 8
+	symR := kind == 0 || kind == 4 || kind == 5 || kind == 7 || kind == 8
 	symRole2 := kind == 1 || kind == 4 || kind == 5 || kind == 7 || kind == 8
 	symLink := kind == 2 || kind == 3 || kind == 9
 	if kind == 7 || kind == 8 {
 		n = 1
 	}
-	p := verifC14Populate(env, n, symR, symRole2, symLink)
+	// the key cursor sees each role value once however many hold it: "r" is held
+	// by the first emp only, the second values are arbitrary
+	p := verifC14Populate(env, n, symR, symRole2, symLink, kind == 1)
 	forward := verifrt.Bool("forward")
 	env.view(func(tx *bbolt.Tx) {
 		switch kind {
